@@ -269,7 +269,17 @@ def datetime_module(clock):
     datetime.now()/utcnow()/today() read the simulated clock (in the process's local time zone, or in `tz`)"""
     import datetime as real_dt
 
-    class SimDateTime(real_dt.datetime):
+    class _AnyDateTime(type):
+        # isinstance(x, datetime.datetime) inside the patched module must stay true for ordinary datetime objects
+        # (e.g. what the YAML loader makes of an unquoted timestamp)
+        def __instancecheck__(cls, obj):
+            return isinstance(obj, real_dt.datetime)
+
+    class _AnyDate(type):
+        def __instancecheck__(cls, obj):
+            return isinstance(obj, real_dt.date)
+
+    class SimDateTime(real_dt.datetime, metaclass=_AnyDateTime):
         @classmethod
         def now(cls, tz=None):
             return cls.fromtimestamp(clock.time(), tz)
@@ -282,7 +292,7 @@ def datetime_module(clock):
         def today(cls):
             return cls.fromtimestamp(clock.time())
 
-    class SimDate(real_dt.date):
+    class SimDate(real_dt.date, metaclass=_AnyDate):
         @classmethod
         def today(cls):
             return cls.fromtimestamp(clock.time())
